@@ -79,7 +79,8 @@ type runProc struct {
 }
 
 type RunKit struct {
-	Root string // scratch module root
+	Root    string // scratch module root (go 1.22: std-http needs it)
+	RootOld string // scratch module at go 1.20, for the other flavours
 	pkgs []*RunPkg
 }
 
@@ -104,11 +105,27 @@ func NewRunKit(work string) (*RunKit, error) {
 	if err := os.WriteFile(filepath.Join(root, "go.sum"), gosum, 0o644); err != nil {
 		return nil, err
 	}
-	return &RunKit{Root: root}, nil
+	// a second module at the project's own language version (go.mod of oapi-codegen: go 1.20) for every flavour but
+	// std-http: loop variables are shared between iterations there, as they are for users who have not moved to go 1.22
+	rootOld := filepath.Join(work, "runmod120")
+	if err := os.MkdirAll(rootOld, 0o755); err != nil {
+		return nil, err
+	}
+	gmOld := strings.Replace(string(gomod), "module verifharness", "module verifrun", 1)
+	if err := os.WriteFile(filepath.Join(rootOld, "go.mod"), []byte(gmOld), 0o644); err != nil {
+		return nil, err
+	}
+	if err := os.WriteFile(filepath.Join(rootOld, "go.sum"), gosum, 0o644); err != nil {
+		return nil, err
+	}
+	return &RunKit{Root: root, RootOld: rootOld}, nil
 }
 
 func (k *RunKit) Add(p *RunPkg) *RunPkg {
 	p.Dir = filepath.Join(k.Root, p.Name)
+	if p.FW != "stdhttp" && k.RootOld != "" {
+		p.Dir = filepath.Join(k.RootOld, p.Name)
+	}
 	k.pkgs = append(k.pkgs, p)
 	return p
 }
